@@ -219,9 +219,12 @@ func (drv *Driver) makeRequest(ctx context.Context, req *http.Request, params dr
 
 	if params.Headers != nil {
 		params.Headers.ForEach(func(value []string, key string) bool {
-			v := params.Headers.Get(key)
+			// every configured value, not only the first
+			req.Header.Del(key)
 
-			req.Header.Set(key, v)
+			for _, v := range value {
+				req.Header.Add(key, v)
+			}
 
 			logger.
 				Debug().
